@@ -260,7 +260,7 @@ def gen_formula(ty, nops, depth, rng, flavour):
 
 def gen_operand(ty, depth, rng, flavour):
     if depth > 0 and rng.random() < 0.4:
-        inner = gen_formula(ty, rng.randint(1, 3), depth - 1, rng, flavour)
+        inner = gen_formula(ty, rng.randint(1, 2), depth - 1, rng, flavour)
         pre = []
         if rng.random() < 0.2:
             pre = ["neg"] if ty == "num" else ["not"]
@@ -309,7 +309,7 @@ def generate(tier, rng):
         f, ok = typed_sequence(ops, rng, flavour, unary_p=0.3)
         items.append((f, dict(stream="enum-matrix", nops=len(ops), typed=int(ok), flavour=flavour)))
     # 3. chains of 4..12 operators
-    for _ in range(6000 if thorough else 500):
+    for _ in range(6000 if thorough else 300):
         n = rng.randint(4, 12)
         flavour = "scalar" if rng.random() < 0.7 else "matrix"
         r = rng.random()
@@ -332,10 +332,10 @@ def generate(tier, rng):
         tags.update(nops=len(f) // 2, flavour=flavour)
         items.append((f, tags))
     # 4. explicit parentheses in non-default positions
-    for _ in range(6000 if thorough else 500):
+    for _ in range(6000 if thorough else 300):
         flavour = "scalar" if rng.random() < 0.75 else "matrix"
-        depth = rng.randint(1, 3)
-        f = gen_formula("bool" if rng.random() < 0.4 else "num", rng.randint(1, 4), depth, rng, flavour)
+        depth = 1 if rng.random() < 0.6 else 2
+        f = gen_formula("bool" if rng.random() < 0.4 else "num", rng.randint(1, 3), depth, rng, flavour)
         if not any(o[0] == "p" for o in f[::2]):
             idx = [i for i in range(0, len(f), 2) if f[i][0] == "a" and (f[i][2][0] == "num" or f[i][2][1] in MATS)]
             if idx:
